@@ -452,6 +452,8 @@ class Engine(FuncVerifier):
 
     # ================================================================ loops
     def loop_contract(self, node) -> dict:
+        if id(node) not in self.loop_ordinals:
+            raise EngineError(f"loop at line {getattr(node, 'lineno', '?')} of an inlined helper has no invariant (helpers without a contract are inlined)")
         k = self.loop_ordinals[id(node)]
         lc = self.con.loops.get(k)
         if lc is None:
@@ -655,7 +657,7 @@ class Engine(FuncVerifier):
                 outs.append((RAISE, st1, it.exc))
                 continue
             n, elem_at, static_items = it
-            if static_items is not None and self.loop_ordinals[id(s)] not in self.con.loops:
+            if static_items is not None and self.loop_ordinals.get(id(s), -1) not in self.con.loops:
                 # statically known length: unroll completely
                 cur = [st1]
                 for item in static_items:
@@ -673,7 +675,7 @@ class Engine(FuncVerifier):
                 outs += [(NORMAL, c, None) for c in cur]
                 continue
             lc = self.loop_contract(s)
-            ivar = f"__i{self.loop_ordinals[id(s)]}"
+            ivar = f"__i{self.loop_ordinals.get(id(s), 'x')}"
             st1.locals[ivar] = mk_int(0)
             st1.pc.append(n >= 0)
 
@@ -753,12 +755,12 @@ class Engine(FuncVerifier):
         return [(CONTINUE, st, None)]
 
     # ================================================================ closures
-    def inline_closure(self, st, fv: SV, args, kwargs, node) -> SV:
+    def inline_closure(self, st, fv: SV, args, kwargs, node, isolated=False) -> SV:
         fn: ast.FunctionDef = fv.py
         frame = State()
         frame.heap, frame.pc, frame.schemas, frame.idx, frame.ctx = st.heap, st.pc, st.schemas, st.idx, st.ctx
         frame.events, frame.loads, frame.calllog, frame.callbase = st.events, st.loads, st.calllog, st.callbase
-        frame.parent = st
+        frame.parent = None if isolated else st
         frame.old = st.old
         frame.decisions = st.decisions
         frame._catch = getattr(st, "_catch", ())
@@ -769,8 +771,20 @@ class Engine(FuncVerifier):
             frame.locals[k] = v
         outs = self.exec_block(fn.body, frame)
         live = [(k, s2, v) for (k, s2, v) in outs]
-        if len(live) != 1:
+        if not live:
             raise ClosureFork(fn, args, kwargs, node)
+        if len(live) > 1:
+            # several outcomes of a call inside an expression: pick one per re-execution of the enclosing statement
+            # (decision keys are stable: the body is re-inlined deterministically from the same pre-state)
+            pick = None
+            for i in range(len(live) - 1):
+                sel = z3.Bool(f"inl!{getattr(node, 'lineno', 0)}!{getattr(node, 'col_offset', 0)}!{i}")
+                if self._decide_key(st, ("inl", id(node), i), sel):
+                    pick = i
+                    break
+            if pick is None:
+                pick = len(live) - 1
+            live = [live[pick]]
         kind, s2, val = live[0]
         if kind == RAISE:
             raise Raised(val)
@@ -780,6 +794,41 @@ class Engine(FuncVerifier):
         if p is not None and p is not st:
             st.locals.update(p.locals)
         return val if kind == RETURN and val is not None else mk_none()
+
+    def inline_function(self, st, qual: str, args, kwargs, node) -> Optional[SV]:
+        """A repository function / method without a contract of its own (typically a helper extracted by a refactoring):
+        its body is executed in place, like a closure without access to the caller's locals."""
+        depth = getattr(self, "_inline_depth", 0)
+        if depth >= 3:
+            return None
+        src = core.Source.get(self.con.file) if self.con.file else None
+        if src is None or not src.has(qual) or qual == (self.con.variant_of or self.con.name):
+            return None
+        fn = src.func(qual).node
+        if fn.args.vararg or fn.args.kwarg or fn.args.kwonlyargs or any(isinstance(n, (ast.Yield, ast.YieldFrom)) for n in ast.walk(fn)):
+            return None
+        names = [a.arg for a in fn.args.args]
+        defaults = fn.args.defaults
+        full = list(args)
+        kw = dict(kwargs)
+        for i in range(len(full), len(names)):
+            nm = names[i]
+            if nm in kw:
+                full.append(kw.pop(nm))
+                continue
+            di = i - (len(names) - len(defaults))
+            if di < 0:
+                return None
+            full.append(self.ev(defaults[di], st))
+        if kw or len(full) != len(names):
+            return None
+        self._inline_depth = depth + 1
+        try:
+            fv = SV(None, "closure", None, py=fn)
+            saved_parent = st.parent
+            return self.inline_closure(st, fv, full, {}, node, isolated=True)
+        finally:
+            self._inline_depth = depth
 
     # ================================================================ function driver
     def run(self) -> None:
@@ -961,6 +1010,9 @@ def _solve_one(args):
 _VCS: List[VC] = []
 
 
+CROSSCHECK = False   # set by smt_props.run_functions for the thorough tier
+
+
 def verify_function(qual: str, prefix: str, timeout_ms: int = 10000):
     """Generate and discharge the VCs of one function.  Returns (list[Ob], FuncInfo|None, Engine|None)."""
     con = CONTRACTS[qual]
@@ -982,6 +1034,16 @@ def verify_function(qual: str, prefix: str, timeout_ms: int = 10000):
     try:
         eng.run()
     except EngineError as e:
+        # the function has left the subset the engine translates: fall back to evaluating its contract at run time on the
+        # real function over a fixed corpus (BOUNDED stand-in, pyvc/rtcheck.py); a clause found false is a real counterexample
+        try:
+            from . import rtcheck
+            rt = rtcheck.runtime_check(con, qual, prefix, str(e))
+        except Exception as e2:  # the fallback itself failed: undecided as before
+            rt = []
+            e = EngineError(f"{e} (run-time fallback failed: {type(e2).__name__}: {e2})")
+        if rt:
+            return rt, finfo, eng
         return [core.Ob(f"{prefix}/{qual}/translate", core.UNDECIDED, "z3", time.time() - t0,
                         f"outside the supported subset or unbound contract: {e}", functions=[qual])], finfo, eng
     obs = []
@@ -1000,8 +1062,58 @@ def verify_function(qual: str, prefix: str, timeout_ms: int = 10000):
         elif st_ == core.UNDECIDED and g["status"] == core.DISCHARGED:
             g["status"] = core.UNDECIDED
             g["details"].append(f"line {vc.lineno}: {det}")
+    refuted_names = [n for n, g in groups.items() if g["status"] == core.REFUTED]
+    if refuted_names and getattr(eng, "unmodelled", None):
+        # a counter-model over uninterpreted library functions (str.lstrip, str.join, ...) is not a counterexample: decide the
+        # function by evaluating its contract at run time instead (bounded); only a clause found false there is a violation
+        why = f"the VCs of {qual} mention unmodelled library functions {sorted(eng.unmodelled)}; z3 models over them are not verdicts"
+        try:
+            from . import rtcheck
+            rt = rtcheck.runtime_check(con, qual, prefix, why)
+        except Exception:
+            rt = []
+        if rt:
+            return rt, finfo, eng
+        for n in refuted_names:
+            groups[n]["status"] = core.UNDECIDED
+            groups[n]["details"] = [why] + groups[n]["details"]
+    bounded_names = set()
+    undecided_names = [n for n, g in groups.items() if g["status"] == core.UNDECIDED]
+    if undecided_names and con.file is not None and con.body_slice is None:
+        # both solvers gave up on some VC: evaluate the contract at run time (bounded).  A clause found false there is a
+        # violation with a concrete call; otherwise the undecided VCs are reported as bounded stand-ins.
+        try:
+            from . import rtcheck
+            rt = rtcheck.runtime_check(con, qual, prefix, "solver gave no answer on " + ", ".join(x.rsplit("/", 2)[-2] + "/" + x.rsplit("/", 1)[-1] for x in undecided_names[:3]))
+        except Exception:
+            rt = []
+        if any(o.status == core.REFUTED for o in rt):
+            return rt, finfo, eng
+        if rt and all(o.status == core.DISCHARGED for o in rt):
+            for n in undecided_names:
+                groups[n]["status"] = core.DISCHARGED
+                groups[n]["details"] = ["BOUNDED: " + rt[0].detail] + groups[n]["details"]
+                bounded_names.add(n)
     for name, g in groups.items():
-        obs.append(core.Ob(name, g["status"], "z3", g["t"], "\n".join(g["details"]) or f"{g['n']} path(s): unsat",
-                           functions=[qual], sample=f"{g['n']} path VC(s) of {qual}"))
+        obs.append(core.Ob(name, g["status"], "z3" if name not in bounded_names else "runtime", g["t"],
+                           "\n".join(g["details"]) or f"{g['n']} path(s): unsat",
+                           functions=[qual], sample=f"{g['n']} path VC(s) of {qual}", bounded=name in bounded_names))
         eng.solver_time += g["t"]
+    if CROSSCHECK and con.file is not None and con.body_slice is None and all(o.status == core.DISCHARGED for o in obs):
+        # thorough tier: CPython cross-check of the encoding -- the proved contract is also evaluated at run time on the real
+        # function over the corpus (bounded); a clause that is proved but false at run time means the ENCODING is wrong
+        try:
+            from . import rtcheck
+            rt = rtcheck.runtime_check(con, qual, prefix, "cross-check of a proved contract")
+            for o in rt:
+                if o.status == core.REFUTED:
+                    o.name = o.name.replace("/runtime-contract/", "/runtime-crosscheck/")
+                    o.status = core.UNDECIDED
+                    o.detail = "PROVED BY THE SMT ENGINE BUT FALSE AT RUN TIME (engine or contract-evaluator defect, not a verdict on the code):\n" + o.detail
+                    obs.append(o)
+                elif o.status == core.DISCHARGED:
+                    o.name = f"{prefix}/{qual}/runtime-crosscheck"
+                    obs.append(o)
+        except Exception:
+            pass
     return obs, finfo, eng
